@@ -12,6 +12,7 @@ package main
 //     MaxFieldLength and WriteFieldBody are built from the same operands
 
 import (
+	"go/token"
 	"fmt"
 	"sort"
 	"strings"
@@ -122,7 +123,9 @@ func ruleC10R2(c *Ctx) {
 		pos  ssa.Value
 	}
 	var patches, reserves []hdr
-	for _, site := range callsIn(fn) {
+	// reservation and patch of one header stand in one function; which function of the encoder's region that is (the
+	// root map in encodeRecord, a field's length in a helper that encodes one field) is free
+	for _, site := range c.callsInR(fn) {
 		f := site.Common().StaticCallee()
 		if f == nil || relPkg(fnPkgPath(f)) != "output/fastmsgpack" {
 			continue
@@ -158,20 +161,20 @@ func ruleC10R2(c *Ctx) {
 	for _, p := range patches {
 		var match []hdr
 		for _, r := range reserves {
-			if r.pos == p.pos {
+			if r.pos == p.pos && r.site.Parent() == p.site.Parent() {
 				match = append(match, r)
 			}
 		}
 		construct := "back-patch " + canonOf(p.site.Value())
 		if len(match) == 0 {
-			c.bad("C10.R2", fn, construct, p.site.Pos(), "a header is written at a position for which no reservation of the same position value exists")
+			c.bad("C10.R2", p.site.Parent(), construct, p.site.Pos(), "a header is written at a position for which no reservation of the same position value exists")
 			continue
 		}
 		okW := false
-		pc := controllingCond(c, fn, p.site)
+		pc := controllingCond(c, p.site.Parent(), p.site)
 		var seen []string
 		for _, r := range match {
-			rc := controllingCond(c, fn, r.site)
+			rc := controllingCond(c, r.site.Parent(), r.site)
 			seen = append(seen, fmt.Sprintf("%d bits when %s", r.bits, rc))
 			if r.bits == p.bits && rc == pc {
 				okW = true
@@ -185,23 +188,122 @@ func ruleC10R2(c *Ctx) {
 }
 
 func ruleC10R3(c *Ctx) {
-	fn := c.P.Fn("output/fluentdforward.(*eventSerializer).encodeRecord")
-	// the counter: the phi named rootMapSize in the first loop
-	var counter *ssa.Phi
-	eachInstr(fn, func(in ssa.Instruction) {
-		if ph, ok := in.(*ssa.Phi); ok && ph.Comment == "rootMapSize" && isLoopHeader(ph.Block()) && counter == nil {
-			counter = ph
-		}
-	})
-	if counter == nil {
-		broken("C10.R3: the rootMapSize counter of encodeRecord was not found")
+	root := c.P.Fn("output/fluentdforward.(*eventSerializer).encodeRecord")
+	// the encoder's body: encodeRecord and its private helpers (the field loop and the environment loop may stand in either)
+	var region []*ssa.Function
+	for _, g := range c.regionOf(root) {
+		region = append(region, withAnons(g)...)
 	}
+	inRegion := map[*ssa.Function]bool{}
+	for _, g := range region {
+		inRegion[g] = true
+	}
+	isMapLen := func(site ssa.CallInstruction) bool {
+		f := site.Common().StaticCallee()
+		return f != nil && relPkg(fnPkgPath(f)) == "output/fastmsgpack" && strings.HasPrefix(f.Name(), "EncodeMapLen") && len(site.Common().Args) == 3
+	}
+	unusedResult := func(site ssa.CallInstruction) bool {
+		v := site.Value()
+		return v == nil || v.Referrers() == nil || len(*v.Referrers()) == 0
+	}
+	// the counter: the value back-patched into the root map header is  k + (a loop-header phi)  — also when the loop stands
+	// in a helper that returns its count
+	type cnt struct {
+		phi *ssa.Phi
+		k   int64
+	}
+	var resolveCount func(v ssa.Value, depth int) (cnt, bool)
+	resolveCount = func(v ssa.Value, depth int) (cnt, bool) {
+		v = strip(v)
+		if depth > 6 {
+			return cnt{}, false
+		}
+		switch x := v.(type) {
+		case *ssa.Phi:
+			if isLoopHeader(x.Block()) {
+				return cnt{x, 0}, true
+			}
+			var got cnt
+			for i, e := range x.Edges {
+				r, ok := resolveCount(e, depth+1)
+				if !ok || (i > 0 && r != got) {
+					return cnt{}, false
+				}
+				got = r
+			}
+			return got, len(x.Edges) > 0
+		case *ssa.BinOp:
+			if x.Op == token.ADD {
+				if k, ok := constInt(x.Y); ok {
+					r, ok2 := resolveCount(x.X, depth+1)
+					r.k += k
+					return r, ok2
+				}
+				if k, ok := constInt(x.X); ok {
+					r, ok2 := resolveCount(x.Y, depth+1)
+					r.k += k
+					return r, ok2
+				}
+			}
+		case *ssa.Extract:
+			if cl, ok := x.Tuple.(*ssa.Call); ok {
+				if g := cl.Common().StaticCallee(); g != nil && inRegion[g] {
+					var got cnt
+					rvs := returnedValues(g, x.Index)
+					for i, rv := range rvs {
+						r, ok := resolveCount(rv.Val, depth+1)
+						if !ok || (i > 0 && r != got) {
+							return cnt{}, false
+						}
+						got = r
+					}
+					return got, len(rvs) > 0
+				}
+			}
+		case *ssa.Call:
+			if g := x.Common().StaticCallee(); g != nil && inRegion[g] && g.Signature.Results().Len() == 1 {
+				var got cnt
+				rvs := returnedValues(g, 0)
+				for i, rv := range rvs {
+					r, ok := resolveCount(rv.Val, depth+1)
+					if !ok || (i > 0 && r != got) {
+						return cnt{}, false
+					}
+					got = r
+				}
+				return got, len(rvs) > 0
+			}
+		}
+		return cnt{}, false
+	}
+	var counter *ssa.Phi
+	var patched cnt
+	nPatch := 0
+	for _, g := range region {
+		for _, site := range callsIn(g) {
+			if !isMapLen(site) || !unusedResult(site) {
+				continue
+			}
+			nPatch++
+			r, ok := resolveCount(site.Common().Args[2], 0)
+			// a join of the counter inside its loop reaches the header phi
+			c.check(ok && (counter == nil || (r.phi == counter && r.k == patched.k)), "C10.R3", g, "the back-patched root map length is the field counter", site.Pos(), "the counter of the field loop (plus a constant)", "another value is written as the root map size")
+			if ok && counter == nil {
+				counter, patched = r.phi, r
+			}
+		}
+	}
+	c.floor("C10.R3", "back-patched root map headers", nPatch, 1)
+	if counter == nil {
+		broken("C10.R3: the field counter patched into the root map header was not found")
+	}
+	fn := counter.Parent()
 	lp := loopOf(fn, counter.Block())
 	if lp == nil || lp.bodyEntry == nil {
-		broken("C10.R3: the field loop of encodeRecord was not found")
+		broken("C10.R3: the field loop of the encoder was not found")
 	}
-	// initial value 1
-	init := int64(-1)
+	// initial value: counter + constant = 1 before the first field (the nested environment map)
+	init := int64(-1 << 30)
 	for i, e := range counter.Edges {
 		if !lp.blocks[counter.Block().Preds[i]] {
 			if k, ok := constInt(e); ok {
@@ -209,7 +311,7 @@ func ruleC10R3(c *Ctx) {
 			}
 		}
 	}
-	c.check(init == 1, "C10.R3", fn, "root map count starts at 1 (the nested environment map)", counter.Pos(), "initialised with 1", fmt.Sprintf("initialised with %d: the announced map size is off by the environment entry", init))
+	c.check(init+patched.k == 1, "C10.R3", fn, "root map count starts at 1 (the nested environment map)", counter.Pos(), "the announced size is 1 + the number of fields written", fmt.Sprintf("the counter starts at %d and %d is added: the announced map size is off by the environment entry", init, patched.k))
 	// per iteration: increments == value writes
 	isInc := func(in ssa.Instruction) bool {
 		bo, ok := in.(*ssa.BinOp)
@@ -232,7 +334,8 @@ func ruleC10R3(c *Ctx) {
 		}
 		return false
 	}
-	cs := &CountSpec{P: c.P, Classes: []string{"count++", "value", "key"},
+	samePkg := func(f *ssa.Function) bool { return fnPkgPath(f) == fnPkgPath(root) }
+	cs := &CountSpec{P: c.P, Classes: []string{"count++", "value", "key"}, Descend: samePkg,
 		Site: func(s ssa.CallInstruction) int {
 			switch {
 			case isValueWrite(s):
@@ -263,29 +366,31 @@ func ruleC10R3(c *Ctx) {
 	c.check(good, "C10.R3", fn, "per field: key, value and count++ happen together, once, or not at all", lp.header.Instrs[0].Pos(),
 		fmt.Sprintf("all %d iteration outcomes have count++ = key copies = value writes <= 1", len(outs)),
 		"an iteration emits a field without counting it (or counts without emitting): the announced map size differs from the number of pairs: "+strings.Join(why, "; "))
-	// the value patched into the root map header is the counter after the loop
-	for _, site := range callsIn(fn) {
-		f := site.Common().StaticCallee()
-		if f == nil || !strings.HasPrefix(f.Name(), "EncodeMapLen") {
-			continue
-		}
-		v := site.Value()
-		if v != nil && v.Referrers() != nil && len(*v.Referrers()) > 0 {
-			continue // not a back-patch
-		}
-		c.check(strip(site.Common().Args[2]) == ssa.Value(counter), "C10.R3", fn, "the back-patched root map length is the field counter", site.Pos(), "rootMapSize after the loop", "another value is written as the root map size")
-	}
 	// environment map: announced len(envFieldLocators), one key + one value per locator
 	var envLoop *loop
-	for _, l2 := range naturalLoops(fn) {
-		if l2.header != lp.header && !lp.blocks[l2.header] {
-			envLoop = l2
+	var envFn *ssa.Function
+	for _, g := range region {
+		for _, l2 := range naturalLoops(g) {
+			if g == fn && (l2.header == lp.header || lp.blocks[l2.header]) {
+				continue
+			}
+			has := false
+			for _, site := range callsIn(g) {
+				if l2.blocks[site.Block()] {
+					if cl, ok := site.(*ssa.Call); ok && isBuiltin(cl, "copy") && strings.Contains(canonOf(cl.Call.Args[1]), "serializedEnvFieldKeys") {
+						has = true
+					}
+				}
+			}
+			if has {
+				envLoop, envFn = l2, g
+			}
 		}
 	}
 	if envLoop == nil || envLoop.bodyEntry == nil {
-		broken("C10.R3: the environment loop of encodeRecord was not found")
+		broken("C10.R3: the environment loop of the encoder was not found")
 	}
-	cs2 := &CountSpec{P: c.P, Classes: []string{"value", "key"},
+	cs2 := &CountSpec{P: c.P, Classes: []string{"value", "key"}, Descend: samePkg,
 		Site: func(s ssa.CallInstruction) int {
 			switch {
 			case isValueWrite(s):
@@ -295,7 +400,7 @@ func ruleC10R3(c *Ctx) {
 			}
 			return -1
 		}}
-	outs2 := cs2.Enum(fn, Point{envLoop.bodyEntry, 0}, func(in ssa.Instruction) bool { return in == envLoop.header.Instrs[0] })
+	outs2 := cs2.Enum(envFn, Point{envLoop.bodyEntry, 0}, func(in ssa.Instruction) bool { return in == envLoop.header.Instrs[0] })
 	good2 := len(outs2) >= 1
 	var why2 []string
 	for _, o := range outs2 {
@@ -307,27 +412,24 @@ func ruleC10R3(c *Ctx) {
 			why2 = append(why2, cs2.describe(o))
 		}
 	}
-	c.check(good2, "C10.R3", fn, "per environment field: exactly one key and one value (present even when empty)", envLoop.header.Instrs[0].Pos(),
+	c.check(good2, "C10.R3", envFn, "per environment field: exactly one key and one value (present even when empty)", envLoop.header.Instrs[0].Pos(),
 		fmt.Sprintf("all %d iteration outcomes write one key and one value", len(outs2)), "an environment field can be skipped or written twice while the map announces len(envFieldLocators) pairs: "+strings.Join(why2, "; "))
 	nAnn := 0
-	for _, site := range callsIn(fn) {
-		f := site.Common().StaticCallee()
-		if f == nil || !strings.HasPrefix(f.Name(), "EncodeMapLen") {
-			continue
+	for _, g := range region {
+		for _, site := range callsIn(g) {
+			if !isMapLen(site) || unusedResult(site) {
+				continue
+			}
+			nAnn++
+			ok := canonOf(site.Common().Args[2]) == "len(recv.envFieldLocators)"
+			c.check(ok, "C10.R3", g, "environment map announces len(envFieldLocators)", site.Pos(), "len(recv.envFieldLocators)", "the announced size "+canonOf(site.Common().Args[2])+" is not the number of locators the loop ranges over")
 		}
-		v := site.Value()
-		if v == nil || v.Referrers() == nil || len(*v.Referrers()) == 0 {
-			continue
-		}
-		nAnn++
-		ok := canonOf(site.Common().Args[2]) == "len(recv.envFieldLocators)"
-		c.check(ok, "C10.R3", fn, "environment map announces len(envFieldLocators)", site.Pos(), "len(recv.envFieldLocators)", "the announced size "+canonOf(site.Common().Args[2])+" is not the number of locators the loop ranges over")
 	}
 	c.floor("C10.R3", "environment map headers", nAnn, 2)
 	// the loop ranges over envFieldLocators
 	iff, _ := envLoop.header.Instrs[len(envLoop.header.Instrs)-1].(*ssa.If)
 	okRange := iff != nil && strings.Contains(canonOf(iff.Cond), "len(recv.envFieldLocators)")
-	c.check(okRange, "C10.R3", fn, "the environment loop ranges over envFieldLocators", envLoop.header.Instrs[0].Pos(), "range bound is len(recv.envFieldLocators)", "the loop's bound is not the announced size")
+	c.check(okRange, "C10.R3", envFn, "the environment loop ranges over envFieldLocators", envLoop.header.Instrs[0].Pos(), "range bound is len(recv.envFieldLocators)", "the loop's bound is not the announced size")
 }
 
 // chasePhi: v is the loop counter or a join of it inside the loop
